@@ -13,6 +13,8 @@ def build(seed, prop, idx, o=None):
     el_o = {k[3:]: v for k, v in o.items() if k.startswith("el_")}
     if "district" in o:
         el_o["district"] = o["district"]
+    if "geo_county" not in el_o and o.get("allow_geo_county", True):
+        el_o["geo_county"] = bool(rng.random() < 0.12)
     el = gen.make_election(rng, el_o)
     thr = o.get("threshold", gen.choice(rng, [100, 100, 90, 50, 0.5]))
     feed_o = {k[5:]: v for k, v in o.items() if k.startswith("feed_")}
